@@ -198,6 +198,10 @@ func (s *Server) handleRPCReadSector(stream net.Conn, log *zap.Logger) error {
 
 	if err := req.Validate(s.hostKey.PublicKey()); err != nil {
 		return errorBadRequest("request invalid: %v", err)
+	} else if req.Offset%rhp4.LeafSize != 0 || req.Length%rhp4.LeafSize != 0 {
+		// sectors are read and proven in whole leaves; refuse anything else
+		// before the account is debited
+		return errorBadRequest("read request must be segment aligned")
 	}
 	prices, token := req.Prices, req.Token
 	lap("validate request")
